@@ -235,9 +235,17 @@ def gen_spec(rng, audit_types=("CARD_COMPARISON", "ONEAUDIT", "POLLING"), n_cont
                 cd["tally_pool"] = new
         if ph_pool[0] == old:
             ph_pool[0] = new
+    restrict = False
+    if rng.random() < 0.2:
+        # contests that are on the cards but not under audit (most real cards carry some)
+        for cd in cards:
+            for extra in ("zz-not-audited-1", "zz-not-audited-2"):
+                if rng.random() < 0.4:
+                    cd["votes"][extra] = {"x": 1}
+        restrict = rng.random() < 0.5
     amc = max_cards + rng.choice((0, 4, 100)) if rng.random() < 0.3 else None
     sn = {"kind": "sha256", "seed": rng.randrange(10 ** 12)} if rng.random() < 0.6 else {"kind": "explicit", "nums": None}
-    return {"phantom_prefix": rng.choice(("phantom-1-", "phantom-1-", "phantom-1-", "ph-1-", "Phantom-2-")),
+    return {"restrict_pool_dict": restrict, "phantom_prefix": rng.choice(("phantom-1-", "phantom-1-", "phantom-1-", "ph-1-", "Phantom-2-")),
             "audit_max_cards": amc, "use_style": use_style, "max_cards": max_cards, "contests": contests, "cards": cards, "phantom_pool": ph_pool,
             "mvrs": mvrs, "sample_nums": sn, "direct_supermajority": rng.random() < 0.5,
             "sn_mode": rng.choice(("list_order", "reverse", "shuffled", "contest_first")), "sn_step": rng.choice((1, 1, 17, 0.5)), **({"sn_base": 2 ** 255 + 12345, "sn_step": 2 ** 128} if rng.random() < 0.2 else {})}
@@ -352,8 +360,15 @@ class Sim:
         """ONEAudit precondition under style: every pooled CVR lists every contest of its pool."""
         CVR = self.L["CVR"]
         if self.use_style and any(c.pool for c in self.cvr_list):
-            tp = CVR.pool_contests(self.cvr_list)
-            CVR.add_pool_contests(self.cvr_list, tp)
+            CVR.add_pool_contests(self.cvr_list, self.pool_dict())
+
+    def pool_dict(self):
+        """The pool -> contests mapping handed to add_pool_contests: the library's own, or that mapping restricted to the
+        contests under audit (cards also carry contests nobody audits; only the audited ones need adding)."""
+        tp = self.L["CVR"].pool_contests(self.cvr_list)
+        if self.spec.get("restrict_pool_dict"):
+            tp = {p: set(cs) & set(self.contests) for p, cs in tp.items()}
+        return tp
 
     def fix_bounds(self):
         """Card bounds must be >= the number of CVRs listing the contest (the property's own precondition)."""
@@ -403,8 +418,7 @@ class Sim:
         A = self.L["Assertion"]
         CVR = self.L["CVR"]
         if self.use_style and any(c.pool for c in self.cvr_list):
-            tp = CVR.pool_contests(self.cvr_list)
-            if CVR.add_pool_contests(self.cvr_list, tp):
+            if CVR.add_pool_contests(self.cvr_list, self.pool_dict()):
                 for cid, con in self.contests.items():
                     n = sum(1 for c in self.cvr_list if c.has_contest(cid))
                     if con.cards < n:
